@@ -6,7 +6,7 @@ import re
 from ..program import AnalysisError, walk_local, dotted
 from ..analysis import Spec, src, class_const, const_value, module_const
 from ..regexlang import Lang
-from ..rules import (canon, string_template, substitute_locals, GWF, EXC, mpt, need_func, stores_to, is_const,
+from ..rules import (returns_under, positional_args, canon, string_template, substitute_locals, GWF, EXC, mpt, need_func, stores_to, is_const,
                      parent_map, raise_class, eval_atom, UNKNOWN)
 from . import common
 from .c07 import _explore
@@ -469,23 +469,26 @@ def basic_auth_table(prog, an, rep):
                inner.where())
     # the credentials checked are those of the request
     cb = [x for x in prog.calls_in(inner) if src(x.func) == 'check_basic_auth']
-    ok = len(cb) == 1 and [canon(inner, a) for a in cb[0].args] == [
+    bound = positional_args(inner, cb[0]) if len(cb) == 1 else None
+    ok = bound is not None and [canon(inner, a) for _, a in bound] == [
         'request.authorization.username', 'request.authorization.password']
     rep.check(ok, R, inner.qname + ': credentials come from the request',
-              inner.where(), 'check_basic_auth(%s)' % [
-                  [canon(inner, a) for a in x.args] for x in cb])
+              inner.where(), 'check_basic_auth(%s)' % [src(x) for x in cb])
     g = need_func(an, SRV + '.auth.check_basic_auth')
-    rets = [r for r in walk_local(g.node, include_root=False)
-            if isinstance(r, ast.Return)]
-    e = rets[0].value if len(rets) == 1 else None
-    ok = isinstance(e, ast.BoolOp) and isinstance(e.op, ast.And) and \
-        sorted(src(v) for v in e.values) == sorted([
-            "username == current_app.config['WEBHOOK_LOGIN']",
-            "password == current_app.config['WEBHOOK_PWD']"])
-    rep.evaluated()
+    # truth table of the credential check itself: True iff both the login
+    # and the password equal the configured pair
+    lg = "%s == current_app.config['WEBHOOK_LOGIN']" % g.params[0]
+    pw = "%s == current_app.config['WEBHOOK_PWD']" % g.params[1]
+    ok = True
+    shown = []
+    for a_, b_ in itertools.product((True, False), repeat=2):
+        got = returns_under(an, g, {lg: a_, pw: b_})
+        shown.append(((a_, b_), sorted(map(str, got))))
+        ok = ok and got == {a_ and b_}
+        rep.evaluated()
     rep.check(ok, R, g.qname + ': login AND password equal the configured '
-              'pair', g.where(), 'check_basic_auth is %s' %
-              (src(e) if e is not None else '?'))
+              'pair', g.where(), 'check_basic_auth (login ok, password ok) '
+              '-> result: %s' % shown)
     h = need_func(an, SRV + '.auth.authenticate_basic')
     rep.check('401' in src(h.node), R, 'authenticate_basic answers 401',
               h.where(), 'refusal is no longer a 401')
@@ -619,9 +622,9 @@ def validation_before_job(prog, an, rep):
                   path=c.describe_path(path))
         call = [x for x in ast.walk(t.ast) if isinstance(x, ast.Call) and
                 src(x.func) == 'self.job'][0]
-        kws = {k.arg: src(k.value) for k in call.keywords}
-        rep.check(kws.get('kwargs') == 'kwargs' and
-                  kws.get('user') in ('user', "session['user']") and
+        kws = {k.arg: canon(f, k.value) for k in call.keywords}
+        rep.check(kws.get('kwargs') == f.node.args.kwarg.arg and
+                  kws.get('user') == "session['user']" and
                   kws.get('bert_e') == 'current_app.bert_e', R, f.qname +
                   ': the job carries the validated URL parameters and the '
                   'session user', f.where(call), 'job built with %s' % kws)
